@@ -34,7 +34,10 @@ def mk_atoms(pos, el, order, shift=(0, 0, 0), same_serial=False):
     for i in order:
         x, y, z = (10 * (pos[i][j] + shift[j]) for j in range(3))
         name = {"C": "C1", "H": "H1", "S": "S1", "F": "F1", "N": "N1", "O": "O1", "SE": "SE1", "I": "I1"}[el[i]]
-        a = Atom(pdbio.atom_line("HETATM", serial=(17 if same_serial else i), name=name, resn="LIG", chain="A", num=1, x=x, y=y, z=z,
+        # labels do not enter the distance rule: in the replay with equal serials the atoms also sit in different chains
+        # and residues (a ligand bound to another chain, fragments of one chain filed under two identifiers)
+        a = Atom(pdbio.atom_line("HETATM", serial=(17 if same_serial else i), name=name, resn=("LIG" if not same_serial else "LG%d" % (i % 3)),
+                                 chain=("A" if not same_serial else "AB C"[i % 4]), num=(1 if not same_serial else i), x=x, y=y, z=z,
                                  elem=el[i]))
         a.pkv_id = i
         atoms.append(a)
